@@ -22,7 +22,7 @@ func VerifC11_type5_fixed_blinds() {
 	vAssume(err == nil)
 	issuer := NewBatchedPrivateIssuer(key)
 	challenge := vBytesC("challenge", 0, 1)
-	n := vSplit(vInt("n", 1, vBound("C11_batch", 2, 3)), 1, 3)
+	n := vSplit(vInt("n", 1, vBound("C11_batch", 4, 5)), 1, 5)
 	nonces := make([][]byte, n)
 	blindsA := make([][]byte, n)
 	blindsB := make([][]byte, n)
@@ -68,6 +68,9 @@ func VerifC11_type5_fixed_blinds() {
 		vAssert(len(ta) == n && len(tb) == n, "token-count")
 		for i := 0; i < n && i < len(ta) && i < len(tb); i++ {
 			vAssert(vBytesEq(ta[i].Marshal(), tb[i].Marshal()), "token-independent-of-blind")
+			// and it is the token of nonce i (what the shipped vectors pin down byte for byte)
+			vAssert(vBytesEq(ta[i].Nonce, nonces[i]), "token-carries-its-own-nonce")
+			vAssert(issuer.Verify(ta[i]) == nil, "token-of-fixed-blind-run-verifies")
 		}
 		vReach("two-blinds")
 	}
